@@ -160,7 +160,7 @@ static int ref_check(refcheck_t* c, const void* frame, size_t flen, const void* 
 enum { SEG_LIT = 0, SEG_REP = 1, SEG_PAD = 2 };
 typedef struct { u8 kind, a, b; } seg_t;
 static const int LIT_N[] = {1, 2, 3, 8, 40, 300};
-enum { NLITN = 6, NLITCLASS = 3 };
+enum { NLITN = 6, NLITCLASS = 4 };
 static const int REP_LEN_SMALL[] = {3, 4, 5, 6, 7, 8, 18, 35, 130};
 static const int REP_LEN_BIG[] = {3, 4, 5, 6, 7, 8, 18, 35, 130, 65538, 65539, 131075};
 enum { NREPOFF = 17 };
@@ -178,7 +178,7 @@ typedef struct { uint32_t lcg; long rep[3]; } shape_state_t;
 static u8 shape_byte(shape_state_t* s, int cls) {
     s->lcg = s->lcg * 1103515245u + 12345u;
     unsigned r = (s->lcg >> 16) & 0x7fff;
-    switch (cls) { case 0: return (u8)('a' + (r & 1)); case 1: return (u8)(r % 200 + 20); default: return (u8)'z'; }
+    switch (cls) { case 0: return (u8)('a' + (r & 1)); case 1: return (u8)(r % 200 + 20); case 3: return (u8)(r % 11); default: return (u8)'z'; }   /* class 3: small alphabet of low byte values (short Huffman table descriptions) */
 }
 /* alphabet index -> segment; `big` adds the > 64 KiB lengths */
 static int shape_alphabet_size(int big) { return NLITN * NLITCLASS + NREPOFF * (big ? 12 : 9) + 4; }
